@@ -1850,7 +1850,12 @@ func (p *Parser) paramExpExp() *Expansion {
 			p.curErr("invalid @ expansion operator %#q", p.val)
 		}
 	}
-	return &Expansion{Op: op, Word: p.getWord()}
+	w := p.getWord()
+	if op == OtherParamOps && w != nil && w.Lit() == "" {
+		// Such as ${foo@Q$bar}, where only the first literal was checked above.
+		p.posErr(w.Pos(), "@ expansion operator requires a literal")
+	}
+	return &Expansion{Op: op, Word: w}
 }
 
 func (p *Parser) eitherIndex() ArithmExpr {
